@@ -3443,8 +3443,13 @@ func (a Dimensions) Normalize() (time.Duration, []string) {
 	for _, dim := range a {
 		switch expr := dim.Expr.(type) {
 		case *Call:
-			lit, _ := expr.Args[0].(*DurationLiteral)
-			dur = lit.Val
+			// The parser does not check arity or argument kinds: only a call whose
+			// first argument is a duration literal contributes an interval.
+			if len(expr.Args) > 0 {
+				if lit, ok := expr.Args[0].(*DurationLiteral); ok {
+					dur = lit.Val
+				}
+			}
 		case *VarRef:
 			tags = append(tags, expr.Val)
 		}
